@@ -13,6 +13,7 @@ import (
 	"filippo.io/age"
 	"filippo.io/age/armor"
 	"filippo.io/age/xverif/internal/coregen"
+	"filippo.io/age/xverif/internal/rd"
 	"filippo.io/age/xverif/internal/strm"
 	"filippo.io/age/xverif/internal/vk"
 	"filippo.io/age/xverif/internal/world"
@@ -91,7 +92,10 @@ func RunCase(run *vk.Run, w *world.World, c *coregen.Case, n int, armored bool, 
 		aw.Close()
 	}
 	ids, log := coregen.Identities(w, c.Ids)
-	var in io.Reader = bytes.NewReader(buf.Bytes())
+	// the ciphertext reaches Decrypt through one of several kinds of source (plain, buffered with small and large
+	// buffers, one byte at a time, data together with EOF, ...), chosen independently of the other dimensions
+	srcKind := rd.SourceKinds[(pol*5+n/3+len(c.Ids)+len(c.Rs)*3)%len(rd.SourceKinds)]
+	var in io.Reader = rd.New(srcKind, buf.Bytes())
 	if armored {
 		in = armor.NewReader(in)
 	}
